@@ -55,20 +55,20 @@ FormatCases ==
                   <<FlagS(<<"decode_group">>), Val(<<"probe">>)>>, <<FlagS(<<"decode_group">>), Val(<<"json">>)>>}}
 
 \* ---- named arguments: --arg / --argjson / --raw-file (jq: --rawfile) ---------------
-Bindings == {
-    <<FlagL("arg", "arg"), Val(<<"x">>), Val(<<"v">>)>>,
-    <<FlagL("argjson", "argjson"), Val(<<"x">>), Val(<<"1">>)>>,
-    <<FlagL("argjson", "argjson"), Val(<<"x">>), Val(<<"[1,2]">>)>>,
-    <<FlagL("argjson", "argjson"), Val(<<"x">>), Val(<<"\"s\"">>)>>,
-    <<FlagL("argjson", "argjson"), Val(<<"x">>), Val(<<"{">>)>>,
-    <<FlagL("raw_file", "raw-file"), Val(<<"x">>), Val(<<"raw.txt">>)>>,
-    <<FlagL("raw_file", "raw-file"), Val(<<"x">>), Val(<<"missing">>)>>,
-    <<FlagL("raw_file", "raw-file"), Val(<<"x">>), Val(<<"dir">>)>>,
-    <<FlagL("raw_file", "rawfile"), Val(<<"x">>), Val(<<"raw.txt">>)>>,
-    <<FlagL("arg", "arg"), Val(<<"y">>), Val(<<"v">>)>>,
+BindingsOf(n) == {
+    <<FlagL("arg", "arg"), Val(<<n>>), Val(<<"v">>)>>,
+    <<FlagL("argjson", "argjson"), Val(<<n>>), Val(<<"1">>)>>,
+    <<FlagL("argjson", "argjson"), Val(<<n>>), Val(<<"[1,2]">>)>>,
+    <<FlagL("argjson", "argjson"), Val(<<n>>), Val(<<"\"s\"">>)>>,
+    <<FlagL("argjson", "argjson"), Val(<<n>>), Val(<<"{">>)>>,
+    <<FlagL("raw_file", "raw-file"), Val(<<n>>), Val(<<"raw.txt">>)>>,
+    <<FlagL("raw_file", "raw-file"), Val(<<n>>), Val(<<"missing">>)>>,
+    <<FlagL("raw_file", "raw-file"), Val(<<n>>), Val(<<"dir">>)>>,
+    <<FlagL("raw_file", "rawfile"), Val(<<n>>), Val(<<"raw.txt">>)>>,
     <<>> }
+Bindings == BindingsOf("x")
 BindCases ==
-    {Case("bind", "", b1 \o b2 \o <<FlagS(<<"null_input">>), P(Progs["var"])>>, <<>>, "A") : b1 \in Bindings, b2 \in Bindings}
+    {Case("bind", "", b1 \o b2 \o <<FlagS(<<"null_input">>), P(Progs["var"])>>, <<>>, "A") : b1 \in Bindings, b2 \in BindingsOf("y")}
     \cup {Case("bind", "", <<FlagS(<<"compact">>)>> \o b1 \o <<P(Progs["var"])>> \o Files(ks), Idx(Len(b1) + 2, Len(ks)), "A")
             : b1 \in Bindings, ks \in {<<"A", "M", "B">>}}
     \cup {Case("bind", "", <<P(Progs["var"])>> \o Files(<<"A">>) \o b1, <<2>>, "A") : b1 \in Bindings}
